@@ -96,6 +96,31 @@ impl<const p: I> FF<p> {
     //@| lemma_mod_multiples_vanish(-yy, 1, pp);
     //@| lemma_small_mod(1, pp as nat);
 
+    /// a / b = a * inv(b); division by zero is rejected
+    pub fn div(&self, rhs: &FF<p>) -> (r: FF<p>)
+        requires self.wf(), rhs.wf(), p >= 2,
+//@if B
+            rhs.v() != 0, igcd(rhs.v(), p as int) == 1,
+//@endif
+        ensures rhs.v() != 0, r.wf(), (r.v() * rhs.v()) % (p as int) == self.v(),
+    //@body impl/Div@&FF/div ring=1 q=self qname=ff
+    //@+ post
+    //@| let (a, b, pp) = (self.v(), rhs.v(), p as int);
+    //@| let w = choose|w: FF<p>| #[trigger] w.wf() && (b * w.v()) % pp == 1 && __ret.v() == (a * w.v()) % pp;
+    //@| let wi = w.v();
+    //@| // ((a w) % p) * b % p == (a w b) % p == (a * ((b w) % p)) % p == a % p == a
+    //@| lemma_mul_mod_noop_left(a * wi, b, pp);
+    //@| assert((a * wi) * b == a * (b * wi)) by (nonlinear_arith);
+    //@| lemma_mul_mod_noop_right(a, b * wi, pp);
+    //@| lemma_small_mod(a as nat, pp as nat);
+    /// the remainder of a division in a field is zero
+    pub fn rem(&self, rhs: &FF<p>) -> (r: FF<p>)
+//@if B
+        requires rhs.v() != 0,
+//@endif
+        ensures rhs.v() != 0, r.v() == 0,
+    //@body impl/Rem@&FF/rem subst=FF::zero:FF::<p>::zero
+
     pub fn is_unit(&self) -> (r: bool) ensures r == (self.v() != 0),
     //@body impl/Ring@FF/is_unit
 
@@ -108,5 +133,10 @@ impl<const p: I> FF<p> {
         ensures r.wf() || self.v() == 0, self.v() == 0 ==> r.v() == 1, self.v() != 0 ==> (self.v() * r.v()) % (p as int) == 1,
     //@body impl/Ring@FF/normalizing_unit
 }
+/// `&a * b` with b by value (#[auto_ops] derives it from the by-reference impl proved above -- ASSUMED to forward to it)
+pub fn ffmul_<const p: I>(a: &FF<p>, b: FF<p>) -> (r: FF<p>)
+    requires a.wf(), b.wf(),
+    ensures r.wf(), r.v() == (a.v() * b.v()) % (p as int)
+{ a.mul(&b) }
 } // verus!
 fn main() {}
